@@ -114,6 +114,7 @@ func stateNonNilAt(f *ssa.Function, in ssa.Instruction, fld *types.Var) bool {
 func c18(c *Ctx) {
 	defer c18everyAttemptCounted(c)
 	defer c18selectCommitsLast(c)
+	defer c18dsnPathEscaped(c)
 	P, R := c.P, c.R
 	R.Explain("R18.1", "guarded-by-login (T-DOM, inter-procedural): in internal/session every method call on Session.state (other than the nil-safe getters, derived: methods that begin with a receiver nil test) is dominated by the non-nil edge of a test of s.state in the same function or, failing that, at every static call site of the function up to 4 frames; closures inherit the guard that dominates their creation.")
 	R.Explain("R18.2", "T-WRITERS: Session.state is assigned only in handleLogin, from the result of Backend.GetState on its nil-error edge; State.user only in NewState; StateUserInterfaceImpl.u only in its constructor (a state can only reach the database/store/connector of the user it was created for).")
@@ -725,4 +726,35 @@ func (c *Ctx) stateFromSuccessfulGetState(f *ssa.Function, v ssa.Value, at *ssa.
 		return true
 	}
 	return false
+}
+
+// c18dsnPathEscaped (R18.8): two users never share a database file through URI decoding.
+func c18dsnPathEscaped(c *Ctx) {
+	P, R := c.P, c.R
+	R.Explain("R18.8", "one database file per user: wherever the sqlite3 package formats a `file:` URI for sql.Open, the file name placed into it is the result of net/url PathEscape (the escaping SQLite's URI decoder undoes).  A hand-made partial escaper leaves `%xx` sequences of a user id or directory name to be decoded by SQLite, so that two different users (`a%2fb` and the path `a/b`, `x%3fy`...) open the same file - a session would see and change another user's mailboxes.")
+	n := 0
+	for _, f := range c.funcsInPkg("internal/db_impl/sqlite3") {
+		for _, cs := range engine.Calls(f) {
+			sc := cs.Common().StaticCallee()
+			if sc == nil || engine.PkgPathOf(sc) != "fmt" || sc.Name() != "Sprintf" || len(cs.Common().Args) < 2 {
+				continue
+			}
+			format, ok := engine.ConstString(cs.Common().Args[0])
+			if !ok || !strings.HasPrefix(format, "file:") {
+				continue
+			}
+			n++
+			args := sprintfArgs(cs.Common(), 1)
+			good := len(args) > 0
+			for _, a := range args {
+				a = stripIface(a)
+				call, isCall := a.(*ssa.Call)
+				if !isCall || call.Call.StaticCallee() == nil || engine.PkgPathOf(call.Call.StaticCallee()) != "net/url" || call.Call.StaticCallee().Name() != "PathEscape" {
+					good = false
+				}
+			}
+			R.Check(good, "R18.8", c.name(f)+"|file: URI", P.Pos(cs.Pos()), "the file name is url.PathEscape'd", "the file name put into the SQLite `file:` URI is not the result of url.PathEscape: percent sequences in a user id or directory are decoded by SQLite and can name another user's database")
+		}
+	}
+	R.Min("R18.8", "`file:` URIs built in the sqlite3 package", n, 1)
 }
